@@ -86,6 +86,9 @@ def run_shard(pid, tier, seed, shard, nshards, budget_s, out):
                       {"case": dict(ctx.replay_info or {}), "traceback": "".join(traceback.format_exception(exc))[-1800:]})
     faulthandler.cancel_dump_traceback_later()
     ctx.dump(out)
+    if getattr(ctx, "force_exit", False):
+        sys.stdout.flush()
+        os._exit(0)
 
 
 def _merge(results, hash_files):
